@@ -21,7 +21,7 @@ execution itself. `executeBlock` additionally compares the result with the root 
 Ids, roots and transaction hashes are natural numbers (the harness sends hash prefixes); id 0 is never
 the id of a block (it stands for the empty previous-hash of genesis). The two key/value families of the
 chain DB that matter are modelled as total functions (`blocks`, `byNo`, `txIdx`, `rcpt`).
-The model transcribes what the code does, including: the bad-block cache receives the id of the
+The model transcribes what the code does, including: the bad-block cache receives the
 *arriving* block even when the block that failed is a resolved orphan or a block of a reorganisation;
 `rollback` moves the state root to the fork point and nothing moves it back when roll-forward fails.
 -/
@@ -39,6 +39,7 @@ structure Block where
   consOk : Bool := true
   pre : Nat := 0
   res : Option Nat := none
+  tag : Nat := 0      -- fingerprint of everything else in the block (two arrivals are the same content iff all fields agree)
 deriving DecidableEq, Repr, Inhabited
 
 /-- Messages sent to other components (mempool, syncer, p2p). -/
@@ -63,7 +64,7 @@ structure Node where
   sdbRoot : Nat                          -- state DB root
   orphans : List (Nat × Block)           -- orphan pool: (parent id, block), oldest first
   orphanCap : Nat
-  bad : List Nat                         -- bad-block cache, oldest first
+  bad : List (Nat × Block)               -- bad-block cache (id ↦ the block that failed), least recently used first
   badCap : Nat
   lib : Nat                              -- last irreversible height known to the consensus
   out : List Msg                         -- messages sent while handling the current arrival
@@ -235,10 +236,17 @@ def addOrphan (N : Node) (b : Block) : Option Node :=
     | _ :: rest => some { N with orphans := rest ++ [(b.parent, b)] }
   else some { N with orphans := N.orphans ++ [(b.parent, b)] }
 
-/-- `errBlocks.Add` (hashicorp LRU; `Contains` does not touch recency). -/
-def cacheBad (N : Node) (id : Nat) : Node :=
-  let l := (N.bad.filter (· != id)) ++ [id]
+/-- `errBlocks.Add(hashID, newBlock)` (hashicorp LRU: an existing key gets the new value and becomes most recent;
+beyond the capacity the least recently used entry goes). -/
+def cacheBad (N : Node) (b : Block) : Node :=
+  let l := (N.bad.filter (fun e => e.1 != b.id)) ++ [(b.id, b)]
   { N with bad := if l.length > N.badCap then l.drop (l.length - N.badCap) else l }
+
+/-- `errBlocks.Get(hashID)`: a hit makes the entry most recent. -/
+def touchBad (N : Node) (id : Nat) : Option Block × Node :=
+  match N.bad.find? (fun e => e.1 == id) with
+  | none => (none, N)
+  | some e => (some e.2, { N with bad := (N.bad.filter (fun x => x.1 != id)) ++ [e] })
 
 inductive Res where
   | ok | cached | err | reorgErr
@@ -253,8 +261,8 @@ def isMainChain (N : Node) (b : Block) : Option Bool :=
 
 /-- `ChainService.addBlock` for a block received from the network (`usedBState = nil`). -/
 def addBlock (N0 : Node) (b : Block) : Res × Node :=
-  let N := { N0 with out := [] }
-  if N.bad.contains b.id then (.cached, N)
+  let (hit, N) := touchBad { N0 with out := [] } b.id
+  if hit = some b then (.cached, N)              -- only a cached block with the very same content short-circuits
   else if (N.blocks b.id).isSome then (.ok, N)                    -- IsConnectedBlock
   else if (N.blocks b.parent).isNone then                         -- isOrphan → handleOrphan
     match addOrphan N b with
@@ -262,10 +270,10 @@ def addBlock (N0 : Node) (b : Block) : Res × Node :=
     | some N1 => (.ok, { N1 with out := N1.out ++ [Msg.sync b.no] })
   else
     match isMainChain N b with
-    | none => (.err, cacheBad N b.id)
+    | none => (.err, cacheBad N b)
     | some main =>
       match runLoop exec main (N.orphans.length + 1) N b none with
-      | (false, N1, _) => (.err, cacheBad N1 b.id)
+      | (false, N1, _) => (.err, cacheBad N1 b)
       | (true, N1, last) =>
         if main then (.ok, N1)
         else match last with
@@ -273,7 +281,7 @@ def addBlock (N0 : Node) (b : Block) : Res × Node :=
           | some l =>
             if N1.latest < l.no then                              -- needReorg
               match reorg exec N1 l with
-              | (.failed, N2) => (.reorgErr, cacheBad N2 b.id)
+              | (.failed, N2) => (.reorgErr, cacheBad N2 b)
               | (_, N2) => (.ok, N2)
             else (.ok, N1)
 
